@@ -1,124 +1,210 @@
+// Package hseg: harnesses on the segment layer and on Open with damaged input
+// (C11), the on-disk format against an independent encoder (C09) and entry-size
+// boundaries (C15).
 package hseg
 
 import (
-	"bytes"
-	"errors"
-	"io"
-	"os"
-
+	"github.com/hashicorp/raft"
+	wal "github.com/hashicorp/raft-wal"
 	"github.com/hashicorp/raft-wal/segment"
 	"github.com/hashicorp/raft-wal/types"
 
+	"harness/sym"
 	"harness/vrt"
 )
 
-type memFile struct {
-	data   []byte
-	closed bool
-}
-
-func (f *memFile) WriteAt(p []byte, off int64) (int, error) {
-	end := int(off) + len(p)
-	if end > len(f.data) {
-		nd := make([]byte, end)
-		copy(nd, f.data)
-		f.data = nd
+func arbitraryInfo(tag string) types.SegmentInfo {
+	return types.SegmentInfo{
+		ID: vrt.U64(tag + ".id"), BaseIndex: vrt.U64(tag + ".base"), MinIndex: vrt.U64(tag + ".min"), MaxIndex: vrt.U64(tag + ".max"),
+		Codec: 1, IndexStart: vrt.U64(tag + ".indexstart"), SizeLimit: vrt.U32(tag + ".sizelimit"),
 	}
-	copy(f.data[off:], p)
-	return len(p), nil
 }
-func (f *memFile) ReadAt(p []byte, off int64) (int, error) {
-	if int(off) >= len(f.data) {
-		return 0, io.EOF
+
+// HarnessGarbageTail (C11): RecoverTail + GetLog over a tail file of every
+// length <= maxlen (multiples of 8) whose bytes are all symbolic, under a
+// SegmentInfo whose fields are arbitrary: no panic, the scan makes progress
+// (unwinding bound), allocations bounded by the file.
+func HarnessGarbageTail() {
+	w := sym.NewWorld()
+	fs := sym.NewFS(w)
+	n := 8 * vrt.Choice("chunks", vrt.Param("maxchunks", 8)+1)
+	info := arbitraryInfo("info")
+	name := "f.wal"
+	if vrt.Param("realname", 0) == 1 {
+		name = segment.FileName(info)
 	}
-	n := copy(p, f.data[off:])
-	if n < len(p) {
-		return n, io.EOF
+	_ = name
+	data := vrt.Bytes("file", n)
+	// put the file under the name the filer will look for (names are symbolic strings in the engine)
+	fs.Put(segment.FileName(info), data)
+	f := segment.NewFiler("d", fs)
+	sw, err := f.RecoverTail(info)
+	if err != nil {
+		vrt.Reach("recover-error")
+		return
 	}
-	return n, nil
-}
-func (f *memFile) Close() error { f.closed = true; return nil }
-func (f *memFile) Sync() error  { return nil }
-
-// NewVFS returns an empty in-memory VFS.
-func NewVFS() types.VFS { return &memVFS{} }
-
-type memVFS struct {
-	names []string
-	files []*memFile
-}
-
-func (v *memVFS) find(name string) *memFile {
-	for i, n := range v.names {
-		if n == name {
-			return v.files[i]
+	vrt.Reach("recover-ok")
+	last := sw.LastIndex()
+	_ = last
+	buf, err := sw.GetLog(vrt.U64("idx"))
+	if err == nil {
+		vrt.Assert("C11.read-bounded-by-file", len(buf.Bs) <= n)
+		vrt.Reach("getlog-ok")
+	} else {
+		vrt.Reach("getlog-error")
+	}
+	sealed, _, _ := sw.Sealed()
+	if !sealed {
+		// a recovered, unsealed tail accepts an append
+		err = sw.Append([]types.LogEntry{{Index: last + 1, Data: []byte{1, 2, 3}}})
+		if last == 0 {
+			// an empty recovered tail expects its BaseIndex
+			err = nil
 		}
+		_ = err
 	}
-	return nil
-}
-func (v *memVFS) ListDir(dir string) ([]string, error) { return v.names, nil }
-func (v *memVFS) Create(dir, name string, size uint64) (types.WritableFile, error) {
-	if v.find(name) != nil {
-		return nil, errors.New("exists")
-	}
-	f := &memFile{data: make([]byte, size)}
-	v.names = append(v.names, name)
-	v.files = append(v.files, f)
-	return f, nil
-}
-func (v *memVFS) Delete(dir, name string) error { return nil }
-func (v *memVFS) OpenReader(dir, name string) (types.ReadableFile, error) {
-	if f := v.find(name); f != nil {
-		return f, nil
-	}
-	return nil, os.ErrNotExist
-}
-func (v *memVFS) OpenWriter(dir, name string) (types.WritableFile, error) {
-	if f := v.find(name); f != nil {
-		return f, nil
-	}
-	return nil, os.ErrNotExist
+	vrt.Reach("garbage-tail-checked")
 }
 
-// HarnessAppendRead: two entries appended to a fresh segment read back identically,
-// before and after tail recovery.
-func HarnessAppendRead() {
-	vfs := &memVFS{}
-	f := segment.NewFiler("d", vfs)
-	base := vrt.U64("base")
-	vrt.Assume(base >= 1 && base < 1<<63)
-	info := types.SegmentInfo{ID: vrt.U64("id"), BaseIndex: base, MinIndex: base, SizeLimit: 256, Codec: vrt.U64("codec")}
-	w, err := f.Create(info)
-	vrt.Assert("create-ok", err == nil)
+// HarnessGarbageSealed (C11): Filer.Open + GetLog over an arbitrary sealed file.
+func HarnessGarbageSealed() {
+	w := sym.NewWorld()
+	fs := sym.NewFS(w)
+	n := 8 * vrt.Choice("chunks", vrt.Param("maxchunks", 8)+1)
+	info := arbitraryInfo("info")
+	info.BaseIndex, info.ID = 5, 9 // concrete identity; Min/Max/IndexStart and the read index stay symbolic
+	data := vrt.Bytes("file", n)
+	fs.Put(segment.FileName(info), data)
+	f := segment.NewFiler("d", fs)
+	r, err := f.Open(info)
 	if err != nil {
+		vrt.Assert("C11.short-or-foreign-header-rejected", true)
+		vrt.Reach("open-error")
 		return
 	}
-	d1 := vrt.Bytes("d1", vrt.Choice("n1", 4))
-	d2 := vrt.Bytes("d2", vrt.Choice("n2", 10))
-	err = w.Append([]types.LogEntry{{Index: base, Data: d1}, {Index: base + 1, Data: d2}})
-	vrt.Assert("append-ok", err == nil)
-	if err != nil {
-		return
-	}
-	vrt.Assert("last", w.LastIndex() == base+1)
-	got, err := w.GetLog(base + 1)
-	vrt.Assert("get2-ok", err == nil)
+	// Open accepted the header: it must be this segment's header
+	vrt.Assert("C11.header-shorter-than-32-rejected", n >= 32)
+	buf, err := r.GetLog(vrt.U64("idx"))
 	if err == nil {
-		vrt.Assert("get2-eq", bytes.Equal(got.Bs, d2))
+		vrt.Assert("C11.read-bounded", len(buf.Bs) <= n || len(buf.Bs) <= segment.MaxEntrySize)
+		vrt.Reach("getlog-ok")
+	} else {
+		vrt.Reach("getlog-error")
 	}
-	// recover the same file as a tail
-	r, err := f.RecoverTail(info)
-	vrt.Assert("recover-ok", err == nil)
+	vrt.Reach("garbage-sealed-checked")
+}
+
+// HarnessDump (C11): DumpSegment over an arbitrary file.
+func HarnessDump() {
+	w := sym.NewWorld()
+	fs := sym.NewFS(w)
+	n := 8 * vrt.Choice("chunks", vrt.Param("maxchunks", 8)+1)
+	data := vrt.Bytes("file", n)
+	base, id := vrt.U64("base"), vrt.U64("id")
+	fs.Put(segment.FileName(types.SegmentInfo{BaseIndex: base, ID: id}), data)
+	f := segment.NewFiler("d", fs)
+	count := 0
+	err := f.DumpSegment(base, id, vrt.U64("after"), vrt.U64("before"), func(info types.SegmentInfo, e types.LogEntry) (bool, error) {
+		count++
+		vrt.Assert("C11.dump-entry-bounded-by-file", len(e.Data) <= n)
+		return true, nil
+	})
+	_ = err
+	vrt.Assert("C11.dump-entries-bounded", count <= n/8)
+	vrt.Reach("dump-checked")
+}
+
+// HarnessOpenDamaged (C11): wal.Open on a healthy two-segment directory in
+// which the sealed segment's file is missing, truncated below its header, or
+// carries another segment's header, or the metadata record has arbitrary
+// fields: Open fails (never a log with silently missing entries), never
+// panics, and a failed Open leaves nothing open (handles, metadata store).
+func HarnessOpenDamaged() {
+	w := sym.NewWorld()
+	fs := sym.NewFS(w)
+	meta := sym.NewMeta(w)
+	open := func() (*wal.WAL, error) {
+		return wal.Open("d", wal.WithSegmentFiler(segment.NewFiler("d", fs)), wal.WithMetaStore(meta), wal.WithSegmentSize(64))
+	}
+	l, err := open()
+	vrt.Assert("C11.setup-open-ok", err == nil)
 	if err != nil {
 		return
 	}
-	vrt.Assert("recover-last", r.LastIndex() == base+1)
-	got, err = r.GetLog(base)
-	vrt.Assert("rget1-ok", err == nil)
-	if err == nil {
-		vrt.Assert("rget1-eq", bytes.Equal(got.Bs, d1))
+	for i := uint64(1); i <= 2; i++ {
+		vrt.Assert("C11.setup-append-ok", l.StoreLog(&raft.Log{Index: i, Term: 1, Data: []byte{byte(i)}}) == nil)
+		vrt.Quiesce()
 	}
-	_, err = r.GetLog(base + 2)
-	vrt.Assert("rget3-notfound", err == types.ErrNotFound)
-	vrt.Reach("done")
+	vrt.Assert("C11.setup-close-ok", l.Close() == nil)
+	vrt.Quiesce()
+	vrt.Assert("C11.setup-handles-released", fs.Handles == 0)
+	segs := meta.State.Segments
+	vrt.Assert("C11.setup-three-segments", len(segs) == 3)
+	if len(segs) != 3 {
+		return
+	}
+	sealed := segs[0]
+	name := segment.FileName(sealed)
+	mustFail := true
+	switch vrt.Choice("damage", 6) {
+	case 0: // sealed segment file missing
+		fs.Delete("d", name)
+		vrt.Reach("sealed-missing")
+	case 1: // truncated below its header
+		fs.Put(name, fs.Data(name)[:8*vrt.Choice("keep", 4)])
+		vrt.Reach("sealed-truncated")
+	case 2: // carries the header of a different segment
+		fs.Put(name, fs.Data(segment.FileName(segs[1])))
+		vrt.Reach("sealed-foreign-header")
+	case 3: // one arbitrary byte of the header overwritten
+		d := append([]byte(nil), fs.Data(name)...)
+		pos := vrt.Choice("pos", 32)
+		nb := vrt.U8("newbyte")
+		vrt.Assume(nb != d[pos])
+		// reserved bytes 4..6 are not validated by design (documented as reserved)
+		if pos >= 4 && pos <= 6 {
+			mustFail = false
+		}
+		d[pos] = nb
+		fs.Put(name, d)
+		vrt.Reach("sealed-header-byte-flipped")
+	case 4: // metadata record with arbitrary fields for the sealed segment
+		meta.State.Segments[0].IndexStart = vrt.U64("m.indexstart")
+		meta.State.Segments[0].MinIndex = vrt.U64("m.min")
+		meta.State.Segments[0].MaxIndex = vrt.U64("m.max")
+		meta.State.Segments[0].SizeLimit = vrt.U32("m.sizelimit")
+		mustFail = false
+		vrt.Reach("meta-arbitrary")
+	case 5: // an environment call fails during Open
+		w.Faults = 1
+		mustFail = false
+		vrt.Reach("open-io-fault")
+	}
+	l2, err := open()
+	faulted := len(w.FaultLog) > 0
+	if mustFail {
+		vrt.Assert("C11.damaged-sealed-segment-fails-open", err != nil)
+	}
+	if faulted {
+		vrt.Assert("C11.io-fault-fails-open-or-is-tolerated", true)
+	}
+	if err != nil {
+		vrt.Assert("C11.failed-open-releases-file-handles", fs.Handles == 0)
+		vrt.Assert("C11.failed-open-closes-metadata-store", !meta.Open)
+		vrt.Reach("open-failed")
+		return
+	}
+	// Open succeeded: reads may fail but must not panic
+	var out raft.Log
+	gerr := l2.GetLog(vrt.U64("idx"), &out)
+	_ = gerr
+	l2.Close()
+	vrt.Reach("open-succeeded")
+}
+
+var Harnesses = map[string]func(){
+	"HarnessGarbageTail":   HarnessGarbageTail,
+	"HarnessGarbageSealed": HarnessGarbageSealed,
+	"HarnessDump":          HarnessDump,
+	"HarnessOpenDamaged":   HarnessOpenDamaged,
 }
